@@ -25,18 +25,18 @@ type Thread struct {
 }
 
 type waiter struct {
-	th    *Thread
-	tok   *selToken
-	idx   int   // select case index
-	val   Value // for senders: value offered
-	recv  bool
+	th   *Thread
+	tok  *selToken
+	idx  int   // select case index
+	val  Value // for senders: value offered
+	recv bool
 }
 
 type selToken struct {
-	fired  bool
-	idx    int
-	val    Value
-	ok     bool
+	fired bool
+	idx   int
+	val   Value
+	ok    bool
 }
 
 func (ex *Exec) initThreads() {
@@ -567,4 +567,3 @@ func (ex *Exec) doSelect0(fr *Frame, instr *ssa.Select) Value {
 }
 
 // ---- data-race bookkeeping hooks (no-ops unless enabled) ----
-
